@@ -164,15 +164,50 @@ def gen():
     return consts_text, logic_text, summary
 
 
+HEADER = ("-- GENERATED by tools/gen_lean.py from the current source of /repo - do not edit.\n"
+          "-- Regenerated on every check run.\n")
+
+
+class Api(object):
+    """what a plug-in under tools/genparts/ may use"""
+    P = P
+    SRC = SRC
+    REPO = REPO
+    HEADER = HEADER
+    parse = staticmethod(parse)
+    lean_str = staticmethod(lean_str)
+
+
+def plugins():
+    import importlib.util
+    d = os.path.join(HERE, "genparts")
+    out = {}
+    for name in sorted(os.listdir(d)) if os.path.isdir(d) else []:
+        if not name.endswith(".py") or name.startswith("_"):
+            continue
+        spec = importlib.util.spec_from_file_location("genparts_" + name[:-3], os.path.join(d, name))
+        m = importlib.util.module_from_spec(spec)
+        spec.loader.exec_module(m)
+        # generate(api) -> {"<File>.lean": text, ...}   (files land in lean/Clikit/Gen/)
+        for fname, text in m.generate(Api).items():
+            if fname in ("Consts.lean", "Logic.lean") or fname in out:
+                raise P.Untranslatable("plug-in %s: file name %s is taken" % (name, fname))
+            out[fname] = text
+    return out
+
+
 def main():
     try:
         consts_text, logic_text, summary = gen()
-    except (P.Untranslatable, OSError, SyntaxError) as e:
-        print("BROKEN-TIE %s" % e)
+        extra = plugins()
+    except (P.Untranslatable, OSError, SyntaxError, KeyError, AttributeError, IndexError, ValueError) as e:
+        print("BROKEN-TIE %s: %s" % (type(e).__name__, e))
         return 3
     ch1 = write_if_changed(os.path.join(OUT, "Consts.lean"), consts_text)
     ch2 = write_if_changed(os.path.join(OUT, "Logic.lean"), logic_text)
-    summary["changed"] = bool(ch1 or ch2)
+    ch3 = [write_if_changed(os.path.join(OUT, f), t) for f, t in extra.items()]
+    summary["plugin_files"] = sorted(extra)
+    summary["changed"] = bool(ch1 or ch2 or any(ch3))
     print("GEN " + json.dumps(summary))
     return 0
 
